@@ -41,6 +41,7 @@ type stStep struct {
 	Op    string `json:"op"` // add | del | stop
 	S     int    `json:"s"`
 	R     int    `json:"r"`
+	Jit   int    `json:"jit"` // block steps: offset (ns) of this block's time stamp from the nominal grid
 }
 
 type stScen struct {
@@ -194,10 +195,10 @@ func stRunOnce(id int, sc *stScen, run string, oneBlock bool) {
 					}
 					d[c] = sc.Data[c][pos : pos+n]
 					block.segments[c] = DataSegment{rawData: raw, framesPerSample: 1, framePeriod: ds.samplePeriod, firstFrameIndex: first,
-						firstTime: t0.Add(time.Duration(pos) * ds.samplePeriod), signed: sc.Signed}
+						firstTime: t0.Add(time.Duration(pos)*ds.samplePeriod + time.Duration(st.Jit)), signed: sc.Signed}
 				}
 				block.nSamp = n
-				vEmit(vmap{"ev": "Block", "first": pos, "n": n, "d": d})
+				vEmit(vmap{"ev": "Block", "first": pos, "n": n, "d": d, "ts": pos*sc.PeriodNs + st.Jit})
 				pos += n
 				nPanicBefore := vPanics()
 				if err := ds.ProcessSegments(block); err != nil {
